@@ -59,6 +59,8 @@ def gen_case(seed, tier, index=0):
         opts = {"holders": rng.sample(A.SAFE_HOLDERS[:5], rng.randint(0, 2)), "licenses": rng.sample(A.LICENSES, rng.randint(0, 2))}
         if rng.chance(0.3):
             opts["contributors"] = rng.sample(A.CONTRIBUTORS, rng.randint(1, 2))
+        if rng.chance(0.06):
+            opts["holders"] = A.LONG_HOLDERS[: rng.randint(45, 60)]  # pushes the header past the 4 KiB window
         if rng.chance(0.15):
             # contributors only: the header then carries neither copyright nor licence
             opts = {"holders": [], "licenses": [], "contributors": rng.sample(A.CONTRIBUTORS, rng.randint(1, 2))}
@@ -106,8 +108,14 @@ def gen_case(seed, tier, index=0):
         rng.shuffle(named)
         if any(e.endswith(".txt") for e in named) and not opts.get("style") and not dot_license:
             opts["fallback_dot_license"] = True
+        faults = []
+        if rng.chance(0.12):
+            # the second open of the target (the text-mode read; the first is the binary sniff) fails: the step must
+            # not go on as if the file were empty
+            tgt = name + ".license" if dot_license else rng.pick([n2 + ".license" for n2 in named if n2.endswith((".json", ".png", ".txt"))] or [name])
+            faults = [{"op": "open-r", "path": tgt, "errno": rng.pick(["EIO", "ESTALE", "EACCES"]), "nth": 2}]
         steps.append({"argv": ["--no-multiprocessing"] + A.argv_of(opts, named), "clock": t.isoformat(timespec="seconds"),
-                      "opts": opts, "named": named,
+                      "opts": opts, "named": named, "faults": faults,
                       "observe": [{"kind": "reuse_info", "path": p} for n in [name] + extras for p in (n, n + ".license")]})
         t += datetime.timedelta(seconds=rng.pick([1, 30, 3600, 86400 * 20, 86400 * 200, 86400 * 400, 86400 * 800]))
     files = [{"path": name, "content": content}] + A.template_files(sorted(tnames))
@@ -168,10 +176,17 @@ def oracle(case, results):
         st, rec = steps[k], recs[k]
         opts = st["opts"]
         named = st.get("named") or [case["name"]]
+        injected = any("|" in f for f in rec.get("fired", []))
         if rec.get("exc"):
-            vs.append({"sig": f"C09/crashed/{rec['exc']['type']}@{rec['exc']['where']}", "detail": f"step {k} argv={st['argv']}\n{rec['exc']['tb'][-500:]}"})
-            return vs
-        code = rec.get("exit")
+            if injected:
+                # an injected I/O failure on a named file may end the command (outside the statement); what the files
+                # declare must still not shrink, which the per-file comparison below checks
+                code = 1
+            else:
+                vs.append({"sig": f"C09/crashed/{rec['exc']['type']}@{rec['exc']['where']}", "detail": f"step {k} argv={st['argv']}\n{rec['exc']['tb'][-500:]}"})
+                return vs
+        else:
+            code = rec.get("exit")
         now = view(rec)
         if code == 2:
             continue
